@@ -104,7 +104,9 @@ fn main() {
                 "c16_vard" => ("C16", c06s::part_vard(tier)),
                 "c18_shlib" => ("C18", c18s::part_shlib(tier)),
                 "c17_names" => ("C17", c17e::part_names(tier)),
+                "c17_crates" => ("C17", c17e::part_crates(tier)),
                 "c12_second" => ("C12", c12::part_second_lifecycle(tier)),
+                "c13_overlap" => ("C13", c12::part_c13_overlap(tier)),
                 "c14_scope" => ("C14", c14s::part_scope(tier)),
                 "c03_inl" => ("C03", c01::part_c03_inlined(tier)),
                 "c19_regs" => ("C19", c19r::part_registers(tier, "C19")),
@@ -255,7 +257,14 @@ fn run_check(id: &str, tier: Tier) -> i32 {
         }
         "C13" => {
             let mut r = Report::new("C13", tier, "model_checking");
-            r.parts.push(c12::part_c13(tier));
+            // the two explorations are independent (8 session threads each): run them side by side
+            let (a, b) = std::thread::scope(|sc| {
+                let h = sc.spawn(|| c12::part_c13_overlap(tier));
+                let a = c12::part_c13(tier);
+                (a, h.join().expect("overlap part"))
+            });
+            r.parts.push(a);
+            r.parts.push(b);
             finish(r)
         }
         "C14" => {
@@ -297,6 +306,7 @@ fn run_check(id: &str, tier: Tier) -> i32 {
             let mut r = Report::new("C17", tier, "model_checking");
             r.parts.push(c17::part_index(tier));
             r.parts.push(c17e::part_names(tier));
+            r.parts.push(c17e::part_crates(tier));
             r.parts.push(c18s::part_names_across_objects(tier));
             finish(r)
         }
